@@ -258,6 +258,17 @@ def slow_isodata_curve(rng):
 
 def cases(rng, tier, shard, nshards):
     total = META['quick_cases'] if tier == 'quick' else META['thorough_cases']
+    # long curves in every tier (size-dependent fast paths, chunking, subsampling only show there)
+    for _ in range(2 if tier == 'quick' else 4):
+        det = pick(rng, ['curvature', 'dfdt', 'dfdt.get_knee', 'menger', 'lmethod.get_knee'])
+        if det == 'lmethod.get_knee':
+            pts, meta = gen.curve(rng, nmax=1400, nmin=900, family=pick(rng, ['mrc', 'inv', 'noise', 'expdecay']))
+        elif rng.random() < 0.5:
+            pts, meta = gen.long_spiky(rng), {'family': 'long-spiky'}
+        else:
+            pts, meta = gen.curve(rng, nmax=8000, nmin=3000, family=pick(rng, ['mrc', 'inv', 'noise', 'expdecay']))
+        yield {'points': pts, 'family': meta['family'], 'layout': 'C', 'detector': det,
+               'fit': pick(rng, ['bestfit', 'pointfit']), 'cost': pick(rng, ['rmse', 'rss']), 'refinement': 'none', 'limit': 10}
     for i in range(shard_count(total, shard, nshards)):
         det = pick(rng, DETS + ['lmethod.knee', 'lmethod.knee'])      # the refinement loop gets the largest share
         nmin = 5 if det.startswith('lmethod') else 3
